@@ -89,7 +89,7 @@ PROPS = {
                         "live half (every waiter sees the stored cause) is in the e2e correspondence when present"],
     },
     "C03": {
-        "bins": ["codec"],
+        "bins": ["codec", "e2e"],
         "rule": "session ids of every quarter-id encoding length (1,2,4,8 bytes) x payload lengths 0..65600 x "
                 "destination capacities around the exact size, written and read back; quarter ids at and beyond "
                 "2^60-1; truncated datagrams; non-trivial = distinct line with a non-empty payload or a boundary id",
